@@ -167,6 +167,9 @@ DoneLaws == phase = "done" => \A x \in PipViolations(U, root, GraphOf) : x[1] \i
 \* replacement: the pin simply stays); the stale-criteria deviations (F24) need a replaced pin
 DoneLawsNoRepin == (phase = "done" /\ ~repinned) => \A x \in PipViolations(U, root, GraphOf) :
                        x[1] \in {"prerelease-of-exclusive-upper-bound-admitted", "extra-guarded-requirement-missing-when-extras-arrive-after-the-pin"}
+\* stated without the stale-criteria deviations only: expected to fail, the counterexample is the design-level form of C08-F24
+DoneNoStale == phase = "done" => \A x \in PipViolations(U, root, GraphOf) :
+                  x[1] \in {"prerelease-of-exclusive-upper-bound-admitted", "extra-guarded-requirement-missing-when-extras-arrive-after-the-pin"}
 \* stated WITHOUT the deviations: expected to fail (design-level form of the findings)
 DoneStrict == phase = "done" => PipViolations(U, root, GraphOf) = {}
 =============================================================================
